@@ -259,6 +259,42 @@ def run(rep, tier="quick", replay=None, evidence_dir=None, collect_only=False):
                     doms = [cbi for cbi, ct in b.calls() if any(n.endswith("safe_collection_len") for n in callee_names(ct["func"])) and b.dominates(cbi, bi)]
                     rep.ob("C05.R1", "%s element-count guard before %s" % (b.path, n0.split("::")[-1]), bool(doms),
                            "a byte-length guard does not bound count*size_of::<T>(): safe_collection_len must dominate the reserve", b.loc(bi))
+                    # a collection that is grown block after block (reserve inside a loop) must be bounded as a whole:
+                    # the guarded quantity has to include the collection's current length, not just this block's count
+                    if doms and ai == 1 and b.in_loop(bi):
+                        recv = b.pldesc(t["args"][0]["pl"]) if t["args"][0].get("k") in ("copy", "move") else None
+                        cumulative = False
+                        for cbi in doms:
+                            ct = b.blocks[cbi]["term"]
+                            seen_l = set()
+                            work = [a for a in ct["args"]]
+                            steps = 0
+                            while work and steps < 60:
+                                steps += 1
+                                o = work.pop()
+                                if o.get("k") not in ("copy", "move"):
+                                    continue
+                                l0 = o["pl"]["l"]
+                                if l0 in seen_l:
+                                    continue
+                                seen_l.add(l0)
+                                for (dbi, si, kind, payload) in b.defs.get(l0, []):
+                                    if kind == "call":
+                                        nm = callee_names(payload["func"])
+                                        if nm and nm[0].endswith("::len") and payload["args"] and payload["args"][0].get("k") in ("copy", "move") and b.pldesc(payload["args"][0]["pl"]) == recv:
+                                            cumulative = True
+                                        work.extend(payload["args"])
+                                    elif kind == "assign":
+                                        rv = payload
+                                        for key in ("o", "a", "b"):
+                                            if isinstance(rv.get(key), dict):
+                                                work.append(rv[key])
+                                        for o2 in rv.get("ops", []) or []:
+                                            work.append(o2)
+                                        if rv.get("pl"):
+                                            work.append({"k": "copy", "pl": rv["pl"]})
+                        rep.ob("C05.R1", "%s the guard before %s bounds the whole collection (current length + declared count)" % (b.path, n0.split("::")[-1]), cumulative,
+                               "the limit is applied to each block's count separately: many blocks that each fit the limit grow the collection without bound", b.loc(bi))
     rep.analysed["allocation sinks examined in the reading set"] = n_sinks
     rep.floor("C05.R1", "allocation sinks in the reading set", n_sinks, 20)
 
